@@ -782,8 +782,12 @@ void run_special(vf::Ctx &c) {
           sc.reset(new trace::Scope(none));
           hist += " Scope+(null)";
         } else {
-          s.span_owner = make_span(w.nspans++);
+          // every other directly constructed Scope re-activates the span that is ALREADY active (when the top frame is a
+          // scope over a real span): one more frame over the same span, released like any other
+          const bool again = op == 4 && w.ids[parent].span_owner && !w.ids[parent].null_span && w.ids.size() % 2 == 1;
+          s.span_owner = again ? w.ids[parent].span_owner : make_span(w.nspans++);
           s.span = s.span_owner.get();
+          if (again) hist += " (same span again)";
           if (op == 2) {
             c.stage("WithActiveSpan");
             sc.reset(new trace::Scope(trace::Tracer::WithActiveSpan(s.span_owner)));
